@@ -14,7 +14,7 @@ EDIT_MODEL = {
     "C03": (ALL_OPS, [(3, 4, [1, 6], 1)], [(3, 4, [1, 2, 3, 4, 5, 6, 7, 8], 1), (5, 5, [1, 6, 7], 1)]),
     "C05": (["Reroot", "RerootFirst", "UnRoot", "RerootMidPoint", "RerootOutGroup", "Rotate"],
             [(3, 4, [1, 2, 3, 4, 6, 7, 8], 1), (5, 5, [4], 1)], [(3, 5, [1, 2, 3, 4, 5, 6, 7, 8], 1)]),
-    "C06": (["RemoveTips"], [(4, 5, [1, 6, 5], 1)], [(4, 5, [1, 2, 3, 4, 5, 6, 7, 8], 1), (6, 6, [1], 1)]),
+    "C06": (["RemoveTips"], [(4, 5, [1, 6, 5], 1), (4, 4, [1, 6], 1, True)], [(4, 5, [1, 2, 3, 4, 5, 6, 7, 8], 1), (6, 6, [1], 1), (4, 5, [1, 6, 7], 1, True)]),
     "C07": (["CollapseShortBranches", "CollapseLowSupport", "CollapseTopoDepth", "Resolve"],
             [(4, 4, [1, 2, 3, 6, 7, 8], 1), (5, 5, [6, 8], 1)], [(4, 5, [1, 2, 3, 4, 5, 6, 7, 8], 1)]),
     "C15": (["InsertIdenticalTips", "RemoveSingleNodes", "Reroot"], [(3, 4, [1, 3, 6], 2)], [(3, 5, [1, 3, 6, 7], 2)]),
@@ -28,6 +28,7 @@ CONSTANTS
   MaxDepth = %d
   OpsOn = {%s}
   Emit = TRUE
+  Chains = %s
 INVARIANT ModelWellFormed
 VIEW StateView
 CHECK_DEADLOCK FALSE
@@ -43,8 +44,10 @@ def edit_model(run, prop):
     cases_path = os.path.join(run.work, "cases-%s.ndjson" % prop)
     ncases = 0
     with open(cases_path, "w") as cf:
-        for bi, (mn, mx, pats, depth) in enumerate(bounds):
-            cfg = MODEL_CFG % (mx, mn, ",".join(map(str, pats)), depth, ",".join('"%s"' % o for o in ops))
+        for bi, b in enumerate(bounds):
+            mn, mx, pats, depth = b[:4]
+            chains = len(b) > 4 and b[4]
+            cfg = MODEL_CFG % (mx, mn, ",".join(map(str, pats)), depth, ",".join('"%s"' % o for o in ops), "TRUE" if chains else "FALSE")
             out = vk.run_model(run, "TreeOps-%s-%d" % (prop, bi), "TreeOps.tla", cfg, workers=vk.NCPU, heap="8g")
             for mf in vk.printed(out, "MODELFAIL"):
                 run.model.setdefault("modelfails", set()).add(mf[0])
@@ -56,7 +59,7 @@ def edit_model(run, prop):
                 cf.write(c + "\n")
                 ncases += 1
     run.extra["model_cases_emitted"] = ncases
-    run.extra["model_bounds"] = [dict(mintips=b[0], maxtips=b[1], patterns=b[2], depth=b[3]) for b in bounds]
+    run.extra["model_bounds"] = [dict(mintips=b[0], maxtips=b[1], patterns=b[2], depth=b[3], chains=(len(b) > 4 and b[4])) for b in bounds]
     if ncases == 0:
         raise vk.Infra("the model emitted no case (vacuous model run)")
     shards = min(vk.NCPU, max(1, ncases // 50))
